@@ -20,7 +20,7 @@ open SpyneModel.Derive SpyneModel.Generated
 
 /-- the switches measured on /repo have their good values: Mandatory copies, every class owns its `_variants`,
     a derived class gets a deep copy of `sqla_column_args` -/
-theorem good_facts : GoodFacts facts15 := ⟨by decide, by decide, by decide⟩
+theorem good_facts : GoodFacts facts15 := ⟨by decide, by decide, by decide, by decide⟩
 
 instance : DeepCopy facts15 := ⟨by decide⟩
 
@@ -30,7 +30,7 @@ theorem discipline_initially : Inv (initHeap facts15) := inv_init facts15 (by de
 
 /-- after any history of operations (returning or raising), from the initial pool -/
 theorem discipline_always (fuel : Nat) (ops : List Op) : Inv (runOps facts15 fuel (initHeap facts15) ops) :=
-  inv_runOps facts15 (by decide) fuel ops _ discipline_initially
+  inv_runOps facts15 (by decide) (by decide) fuel ops _ discipline_initially
 
 /-- the keys of a class's `_variants` are exactly the customised variants of that class - never those of its
     base class or of a subclass -/
@@ -138,6 +138,29 @@ theorem column_keywords_exact (src : Nat) (kw : Kw) (h h' : Heap) (id : Nat) (sc
           (colWrites (if sc.kind == .number then numberKw facts15 h sc.attrs kw else kw)))) :=
   simpleCustomize_col facts15 src kw h h' id sc hsc hr
 
+/-- re-deriving a facet (`Unicode(pattern=A)(pattern=B)`, `Integer(ge=0)(ge=3)`, lengths, values ...): the verdict
+    function of the derived type (validate_native / validate_string on all probe values) is the verdict function of
+    the attributes the keyword loop wrote - the compiled regex `_pattern_re` follows `pattern` (`patRule = always`,
+    by `decide`, see `pattern_recompiled`) - on top of the source's attributes -/
+theorem derived_verdicts_exact (fuel : Nat) (ops : List Op) (src : Nat) (kw : Kw) (h' : Heap) (id : Nat) (sc : Cls)
+    (hsc : (runOps facts15 fuel (initHeap facts15) ops).cls[src]? = some sc)
+    (hr : simpleCustomize facts15 src kw (runOps facts15 fuel (initHeap facts15) ops) = .ok h' id) :
+    ∃ cl, h'.cls[id]? = some cl ∧ verdicts h' cl = verdictsFn sc.kind sc.lo sc.hi (fun k =>
+      match kwLookup (newAttrRec facts15 (runOps facts15 fuel (initHeap facts15) ops) sc.attrs
+          (if sc.kind == .number then numberKw facts15 (runOps facts15 fuel (initHeap facts15) ops) sc.attrs kw else kw)).own k with
+      | some v => some v
+      | none => attrOf (runOps facts15 fuel (initHeap facts15) ops) src k) :=
+  simpleCustomize_verdicts facts15 src kw _ h' id (discipline_always fuel ops) sc hsc hr
+
+/-- whenever the keyword loop writes a pattern, the fresh `Attributes` holds the regex compiled from *that* pattern -/
+theorem pattern_recompiled (h : Heap) (a : Nat) (kw : Kw) (v : AVal)
+    (hp : kwLookup (normKw kw) "pattern" = some v) (hv : v ≠ .none) :
+    kwLookup (newAttrRec facts15 h a kw).own "_pattern_re" = some v := by
+  have hr : facts15.patRule = .always := by decide
+  have hv' : (v == AVal.none) = false := by simpa using hv
+  simp only [newAttrRec, hp, hr, hv', Bool.false_eq_true, if_false]
+  simp [kwLookup]
+
 /-- `Mandatory(primitive)`: `min_occurs = 1`, `nillable = False`, and `min_len = 1` for Unicode -/
 theorem mandatory_primitive_exact (fuel f : Nat) (ops : List Op) (src : Nat) (h' : Heap) (id : Nat) (sc : Cls)
     (hsc : (runOps facts15 fuel (initHeap facts15) ops).cls[src]? = some sc)
@@ -205,10 +228,10 @@ theorem insert_position (d : List (String × Nat)) (i : Nat) (k : String) (v : N
 /-- a class statement lists its fields in the order written, and that order does not depend on how an
     unordered container would enumerate them (hash seed) -/
 theorem class_statement_order (base : Option Nat) (name : String) (ns : Option String) (fields : List (String × Nat))
-    (perm : List Nat) (h h' : Heap) (id : Nat) (hn : (keysOf fields).Nodup)
-    (hr : subclassOp facts15 base name ns fields perm h = .ok h' id) :
+    (perm : List Nat) (attrs : Option Kw) (h h' : Heap) (id : Nat) (hn : (keysOf fields).Nodup)
+    (hr : subclassOp facts15 base name ns fields perm attrs h = .ok h' id) :
     ∃ cl, h'.cls[id]? = some cl ∧ keysOf cl.fields = keysOf fields := by
-  obtain ⟨cl, h1, h2, _⟩ := subclassOp_result facts15 base name ns fields perm h h' id hr
+  obtain ⟨cl, h1, h2, _⟩ := subclassOp_result facts15 base name ns fields perm attrs h h' id hr
   refine ⟨cl, h1, ?_⟩
   rw [h2]
   have : declaredFields facts15 perm fields = odictFromList fields := by
@@ -219,8 +242,8 @@ theorem class_statement_order (base : Option Nat) (name : String) (ns : Option S
   exact keysOf_odictFromList fields hn
 
 theorem class_statement_seed_independent (op1 op2 : List Nat) (base : Option Nat) (name : String) (ns : Option String)
-    (fields : List (String × Nat)) (h : Heap) :
-    subclassOp facts15 base name ns fields op1 h = subclassOp facts15 base name ns fields op2 h := by
+    (fields : List (String × Nat)) (attrs : Option Kw) (h : Heap) :
+    subclassOp facts15 base name ns fields op1 attrs h = subclassOp facts15 base name ns fields op2 attrs h := by
   have : ∀ perm, declaredFields facts15 perm fields = odictFromList fields := by
     intro perm
     simp only [declaredFields]
@@ -244,8 +267,8 @@ theorem flat_then_own (fuel : Nat) (h : Heap) (c : Nat) (cl : Cls) (hc : h.cls[c
 
 /-! ### non-vacuity: a concrete history (pool slots 0.. are Integer, Unicode, Decimal, Integer32, ...) -/
 
-def s1 := apply facts15 1000 (initHeap facts15) (.subclass none "A" (some "ns") [("a", 0), ("b", 1)] [])
-def s2 := apply facts15 1000 s1.heap (.subclass (some 12) "B" none [("c", 3)] [])
+def s1 := apply facts15 1000 (initHeap facts15) (.subclass none "A" (some "ns") [("a", 0), ("b", 1)] [] none)
+def s2 := apply facts15 1000 s1.heap (.subclass (some 12) "B" none [("c", 3)] [] (some [("foo", .int 42)]))
 def s3 := apply facts15 1000 s2.heap (.customize 12 [("min_occurs", .int 1)] none none)
 def s4 := apply facts15 1000 s3.heap (.customize 13 [] none (some [("nillable", .bool false)]))
 def s5 := apply facts15 1000 s4.heap (.append 13 "w" 1)
@@ -269,6 +292,13 @@ example : ((s7.heap.cls[23]?).bind (fun c => (c.fields.head?).map (fun p => attr
 -- Integer32(ge=0) keeps the length guard of Integer32
 example : attrOf s8.heap 25 "max_str_len" = attrOf s8.heap 3 "max_str_len" ∧ attrOf s8.heap 25 "ge" = some (.int 0) := by
   decide +kernel
+-- Unicode(pattern='[a-z]+')(pattern='[0-9]+'): validation follows the second pattern
+def p1 := apply facts15 1000 (initHeap facts15) (.customize 1 [("pattern", .str "[a-z]+")] none none)
+def p2 := apply facts15 1000 p1.heap (.customize 12 [("pattern", .str "[0-9]+")] none none)
+example : attrOf p2.heap 13 "_pattern_re" = some (.str "[0-9]+") ∧ attrOf p2.heap 12 "_pattern_re" = some (.str "[a-z]+") := by
+  decide +kernel
+example : (p2.heap.cls[13]?).map (fun c => (verdicts p2.heap c).drop 15) =
+    some [false, false, false, false, false, false, true, true, false] := by decide +kernel
 -- Code = Unicode(max_len=32); Code(pk=True); Code(min_len=2): only the pk flavour is a primary key
 def c1 := apply facts15 1000 (initHeap facts15) (.customize 1 [("max_len", .int 32)] none none)
 def c2 := apply facts15 1000 c1.heap (.customize 12 [("pk", .bool true)] none none)
